@@ -8,6 +8,7 @@ from . import api as A
 from . import build as B
 from . import common as C
 from . import engine_e
+from . import engine_e3
 from . import eq_specs
 from . import gen as G
 from . import llir
@@ -62,6 +63,7 @@ def families_for(tier):
         "cmp": plan.layouts_for(tier),
         "del": [A.Layout(A.layout_name(s, w, w // 2)) for (s, w) in A.FAMILIES] if tier == "quick"
         else plan.layouts_for("quick"),
+        "alg": [l for l in plan.layouts_for(tier) if l.width == 128],
     }
 
 
@@ -100,6 +102,9 @@ def gen_pairs(api, tier, fams):
         elif fam == "del":
             for l in lay["del"]:
                 out += sp.delegates(l)
+        elif fam == "alg":
+            for l in lay["alg"]:
+                out += sp.alg(l)
         elif fam == "cmpx":
             names = ["I8F0", "I4F4", "U8F8", "I16F16", "U0F32", "I32F32", "U64F0", "I64F64", "I0F128", "U64F64"]
             if tier == "thorough":
@@ -143,11 +148,36 @@ def crates_for(fam, pairs):
 
 
 def _compare_crate(args):
-    ll, n = args
+    ll, n, algs = args
     mod = llir.Module(ll, want_calls=False)
     out = []
+    memo = {}
     for k in range(n):
-        out.append(engine_e.compare(mod, "a__%d" % k, "b__%d" % k))
+        spec = algs[k]
+        if spec is None:
+            out.append(engine_e.compare(mod, "a__%d" % k, "b__%d" % k))
+            continue
+        # in-tool specification (engine_e3): the body of a__k against the limb algebra's term
+        _kind, signed, width, frac, part = spec
+        fn = mod.resolve("a__%d" % k)
+        key = (fn, signed, width, frac)
+        if key not in memo:
+            try:
+                want_flag = mod.body(mod.funcs[fn])[0].count("sret(") > 0 or "{" in mod.body(mod.funcs[fn])[0].split("@")[0]
+                memo[key] = engine_e3.check_mul(mod, fn, signed, width, frac, want_flag)
+            except engine_e3.Unsupported as e:
+                memo[key] = ("undecided", "limb algebra: " + str(e)[:80])
+            except RecursionError:
+                memo[key] = ("undecided", "limb algebra: recursion limit")
+        r = memo[key]
+        if r[0] == "undecided":
+            out.append(r)
+        else:
+            ok = r[0] if part == "value" else r[1]
+            if ok is None:
+                out.append(("undecided", "limb algebra: no flag in this root"))
+            else:
+                out.append(("equal", "limb algebra") if ok else ("different", "limb algebra: the result polynomial / overflow test differs from the specification's"))
     return out
 
 
@@ -158,7 +188,7 @@ def results(api, tier, fams):
     for fam, ps in pairs.items():
         crates += crates_for(fam, ps)
     built = B.build("on", crates)
-    astamp = C.file_hash(os.path.join(HERE, "engine_e.py"), os.path.join(HERE, "engine_e2.py"), os.path.join(HERE, "llir.py"))
+    astamp = C.file_hash(os.path.join(HERE, "engine_e.py"), os.path.join(HERE, "engine_e2.py"), os.path.join(HERE, "engine_e3.py"), os.path.join(HERE, "llir.py"))
     jobs, res = [], {}
     for cr in crates:
         ll = built[cr.name]["ll"]
@@ -172,7 +202,8 @@ def results(api, tier, fams):
     if jobs:
         C.log("[E] comparing pairs in %d crate(s) ..." % len(jobs))
         with ProcessPoolExecutor(max_workers=min(16, os.cpu_count() or 4)) as ex:
-            for (cr, fpath, stamp), r in zip(jobs, ex.map(_compare_crate, [(built[j[0].name]["ll"], len(j[0].pairs)) for j in jobs])):
+            for (cr, fpath, stamp), r in zip(jobs, ex.map(_compare_crate, [(built[j[0].name]["ll"], len(j[0].pairs), [getattr(q, "alg", None) for q in j[0].pairs])
+                                                                       for j in jobs])):
                 C.save_json(fpath, r, indent=None)
                 C.write_stamp(fpath, stamp)
                 res[cr.name] = r
@@ -206,6 +237,11 @@ def run(report, tier, fams, label, select=None):
     for oid, (p, v, how) in R.items():
         if p.expect == "different":
             # controls of every family built for this run are checked, whatever the selection
+            if p.family == "E-alg" and v == "undecided":
+                # the body is outside the limb algebra's fragment (possible on a changed tree): the control did
+                # not accept a wrong specification, and the registered obligations of that layout fail below
+                stats["controls"] += 1
+                continue
             if v != "different":
                 raise run_a.EngineError("E control %s: two different functions compare as %s (%s)" % (oid, v, how))
             stats["controls"] += 1
@@ -255,4 +291,4 @@ def run(report, tier, fams, label, select=None):
 
 def prime(tier):
     ctx = run_a.context(tier)
-    results(ctx["api"], tier, ["wrap", "pol", "mask", "rem", "div", "codec", "cmp", "cmpx", "del", "conv"])
+    results(ctx["api"], tier, ["wrap", "pol", "mask", "rem", "div", "codec", "cmp", "cmpx", "del", "conv", "alg"])
